@@ -66,6 +66,10 @@ class Unsupported(Exception):
     pass
 
 
+class NeedCopy(Unsupported):
+    """a branch that was to be joined contains an expression that may raise: the continuation has to be copied instead"""
+
+
 BIN = {ast.Add: 'Z.add', ast.Sub: 'Z.sub', ast.Mult: 'Z.mul', ast.FloorDiv: 'Z.div', ast.Mod: 'Z.modulo',
        ast.LShift: 'Z.shiftl', ast.RShift: 'Z.shiftr', ast.BitAnd: 'Z.land', ast.BitOr: 'Z.lor', ast.BitXor: 'Z.lxor'}
 CMP = {ast.Lt: 'Z.ltb', ast.LtE: 'Z.leb', ast.Gt: 'Z.gtb', ast.GtE: 'Z.geb', ast.Eq: 'Z.eqb'}
@@ -332,6 +336,7 @@ class TrI(Tr):
         self.skip = {s: set() for s in skip}
         self.octets = set(octets)
         self.effects_seen = {}
+        self.injoin = 0         # > 0 while a branch of a joined `if` / a fold body is translated: nothing in there may raise
         self.pending = None     # list of (var, option term, exception name) while a statement is being translated
         self.noho = 0           # > 0 inside a short-circuit operand / conditional-expression arm: hoisting is not sound there
         self.cache = {}
@@ -544,12 +549,14 @@ class TrI(Tr):
         """run fn() (which translates the expressions of ONE simple statement) collecting the hoisted raising atoms"""
         if self.pending is not None: raise Unsupported('nested statement translation')
         self.pending = []
+        self.cache = {}         # (a statement may be translated again when a continuation is copied)
         try:
             r = fn()
             pend = self.pending
         finally:
             self.pending = None
         if pend and not self.raises: raise Unsupported('expression may raise %s in a function declared total' % pend[0][2])
+        if pend and self.injoin: raise NeedCopy('expression may raise inside a joined branch / loop body')
         return r, pend
 
     def coqname(self, n):
@@ -731,9 +738,13 @@ class TrI(Tr):
                 for v in acc:
                     if v not in self.names or self.names[v][1] != types[v]: raise Unsupported('loop changes the type of ' + v)
                 return '(' + ', '.join(self.names[v][0] for v in acc) + ')'
+            self.injoin += 1
             try:
                 body = self.block(s.body, kf)
+            except NeedCopy as ex:
+                raise Unsupported('loop body: ' + str(ex))
             finally:
+                self.injoin -= 1
                 if saved is None: del self.names[x]
                 else: self.names[x] = saved
             tup = '(' + ', '.join(self.names[v][0] for v in acc) + ')'
@@ -786,7 +797,19 @@ class TrI(Tr):
             raise Unsupported('del ' + ast.unparse(x)[:60])
         if isinstance(s, ast.If):
             c, pend = self.simple(lambda: self.cond(s.test))
+            joined = None
             if not has_exit(s.body) and not has_exit(s.orelse):
+                try:
+                    joined = self.join_if(s, c, pend, rest, k)
+                except NeedCopy:
+                    if self.injoin: raise      # we are ourselves inside a joined branch: let the outer `if` fall back
+            if joined is not None: return joined
+            kk = (lambda: self.block(rest, k)) if (rest or k is not None) else None
+            return self.wrap(pend, '(if %s then %s else %s)' % (c, self.block(s.body, kk), self.block(s.orelse, kk)))
+        raise Unsupported('statement ' + ast.dump(s)[:80])
+
+    def join_if(self, s, c, pend, rest, k):
+            if True:
                 # join: the branches only rebind locals; those that are visible afterwards are returned as a tuple
                 before = set(self.names)
                 both = set(self.definitely(s.body)) & set(self.definitely(s.orelse))
@@ -798,8 +821,12 @@ class TrI(Tr):
                         t = self.names[v][1]
                         if types.setdefault(v, t) != t: raise Unsupported('name %s has different types in the branches' % v)
                     return '(' + ', '.join(self.names[v][0] for v in ex) + ')' if len(ex) != 1 else self.names[ex[0]][0]
-                b1 = self.block(s.body, kf)
-                b2 = self.block(s.orelse, kf)
+                self.injoin += 1
+                try:
+                    b1 = self.block(s.body, kf)
+                    b2 = self.block(s.orelse, kf)
+                finally:
+                    self.injoin -= 1
                 if not ex:
                     return self.wrap(pend, self.block(rest, k))     # branches without any visible effect
                 saved = {v: self.names.get(v) for v in ex}
@@ -813,9 +840,6 @@ class TrI(Tr):
                         else: self.names[v] = saved[v]
                 pat = cns[0] if len(ex) == 1 else "'(" + ', '.join(cns) + ')'
                 return self.wrap(pend, '(let %s := (if %s then %s else %s) in\n %s)' % (pat, c, b1, b2, body))
-            kk = (lambda: self.block(rest, k)) if (rest or k is not None) else None
-            return self.wrap(pend, '(if %s then %s else %s)' % (c, self.block(s.body, kk), self.block(s.orelse, kk)))
-        raise Unsupported('statement ' + ast.dump(s)[:80])
 
     def finish(self):
         for src, ids in self.skip.items():
@@ -1346,13 +1370,14 @@ def gen_tables():
     guarded(out, 'SymmetricKeyAlgorithm.block_size', t_block)
 
     def t_gen():
-        res = []
-        for nm, sz in (('gen_iv', 'block_size'), ('gen_key', 'key_size')):
+        res = ['(* gen_iv / gen_key: the number of octets asked of os.urandom *)']
+        for nm in ('gen_iv', 'gen_key'):
             fn = find_method(sym, nm)
-            if [ast.unparse(s) for s in fn.body] != ['return os.urandom(self.%s // 8)' % sz]: raise Unsupported(nm + ' body changed')
-        res.append('(* gen_iv / gen_key: os.urandom(self.block_size // 8) / os.urandom(self.key_size // 8) -- the divisor *)\n'
-                   'Definition gen_sym_octet_divisor : Z := 8.\n')
-        return '\n'.join(res)
+            if [a.arg for a in fn.args.args] != ['self']: raise Unsupported(nm + ': signature changed')
+            tr = TrI(names={'self': ('a', 'Z')}, raises=True, ratoms=sym_atoms('self', 'a'),
+                     atoms=[('os.urandom(_1)', '{0}', 'Z', ['Z'])])
+            res.append('Definition gen_sym_%s_octets (a : Z) : gres Z :=\n %s.' % (nm, tr.block(strip_doc(fn.body))))
+        return '\n'.join(res) + '\n'
     guarded(out, 'SymmetricKeyAlgorithm.gen_iv/gen_key', t_gen)
 
     write('Gen_tables.v', '\n'.join(out))
@@ -1420,10 +1445,11 @@ def ret_stmt(src):
     return ast.parse('def f():\n return ' + src).body[0].body[0]
 
 
-def sym_atoms(var):
-    """SymmetricKeyAlgorithm-valued variable `var`: its size properties are the translated tables of Gen_tables.v"""
-    return [('%s.key_size' % var, '(gen_sym_key_size %s)' % var, 'Z', [], None),
-            ('%s.block_size' % var, '(gen_sym_block_size %s)' % var, 'Z', [], None)]
+def sym_atoms(var, cvar=None):
+    """SymmetricKeyAlgorithm-valued variable `var` (Coq name cvar): its size properties are the translated tables of Gen_tables.v"""
+    cvar = cvar or var
+    return [('%s.key_size' % var, '(gen_sym_key_size %s)' % cvar, 'Z', [], None),
+            ('%s.block_size' % var, '(gen_sym_block_size %s)' % cvar, 'Z', [], None)]
 
 
 # ---------- targets: pgpy/packet/packets.py ----------
